@@ -55,6 +55,17 @@ void va_events_clear(void);
 void va_events_json(const char* key); /* ,"key":[["M",id,size8],["R",old,new,size8],["F",id],["X",kind,size8]...] */
 long va_events_count(void);
 
+/* arena backing: blocks come from one mmap'ed region with no C library behind it (a stray libc free/realloc of such a
+ * pointer aborts); the region can be write-protected as a whole */
+void va_use_arena(size_t bytes);
+void va_arena_protect(int readonly);
+bool va_in_arena(const void* p);
+void va_arena_reset(void);
+
+/* set by the harness around library calls; direct libc allocator calls seen meanwhile are counted in vh_bypass (VH_WRAP builds) */
+extern int vh_in_lib;
+extern long vh_bypass;
+
 /* ---------- recording callbacks for cbor_stream_decode ---------- */
 struct vh_event {
   int calls;                /* total callbacks invoked */
